@@ -14,7 +14,8 @@ TRACE = ("TLC evaluates the property's clauses (TLA+ definitions in spec/) on ev
 CLAIMED = {
     "C01": dict(
         technique="TLA+ definition of the score evaluated by TLC on recorded library calls (trace validation, "
-                  "exhaustive small grid + seeded random), design theorems model-checked in MC_Kemeny",
+                  "exhaustive small grid + seeded random), design theorems model-checked in MC_Kemeny; the O(n log n) "
+                  "counting algorithm transcribed in TLA+ (KemenyAlgo) and proved equal to the definition by TLC",
         text="Bounded-exhaustive model-based check: every dataset of <=2 (thorough: <=3) partial rankings over 3 "
              "elements x every candidate over subsets of 4 elements is scored by the library under presets, "
              "probing and sampled grid schemes; TLC recomputes the score from the definition (spec/Kemeny.tla) "
@@ -48,13 +49,17 @@ CLAIMED = {
                      "parameterisations x 2 environments are validated against OptSet; the flag clause on all algorithms.",
                 ref="6 C06"),
     "C07": dict(technique=TRACE + "; ParFront merge loop as a TLA+ step machine model-checked (MC_Partition); "
-                                  "consistency relation evaluated by TLC on all (partition, ranking) pairs",
+                                  "consistency relation evaluated by TLC on all (partition, ranking) pairs; the consistency walk as a "
+                                  "TLA+ state machine (ConsistWalk) model-checked against the relation",
                 text="Design level: the merge fixpoint of every topological order is respected by EVERY optimal consensus "
                      "(TLC, all datasets of the grid). Code level: the library's ParFront partition is checked against "
                      "OptSet and the ParCons partition; consistent_with is compared with the relation on all pairs over "
                      "<=3 (thorough 4) elements.",
                 ref="6 C07"),
-    "C08": dict(technique=TRACE + "; LocalSearchDefs!LocalOpt (all single-element moves, exact scores)",
+    "C08": dict(technique=TRACE + "; LocalSearchDefs!LocalOpt (all single-element moves, exact scores); the search "
+                                  "kernels transcribed as a TLA+ state machine (BioScan) model-checked from every "
+                                  "departure ranking, theorem DeltaExact for every cost table, move-by-move trace "
+                                  "validation on the un-jitted kernels",
                 text="Every ranking returned by 7 BioConsert configurations on the grid and on random/threshold "
                      "datasets is checked by TLC against every join/new-bucket move with the 0.001 threshold.",
                 ref="6 C08"),
